@@ -695,12 +695,13 @@ def _sexpr_data(line: str) -> Iterator[Tuple[str, Any]]:
             expr = util.SExprResult(
                 (':error', 'incomplete output from ACE'),
                 '')
-        if len(expr.data) != 2:
+        # incomplete output may end in a complete sub-expression that is
+        # not a (key . value) pair
+        if len(expr.data) != 2 or not isinstance(expr.data[0], str):
             logger.error('Could not read output from ACE: %s', line)
             break
 
         key, val = expr.data
-        assert isinstance(key, str)
         yield key, val
 
         line = expr.remainder.lstrip()
